@@ -193,7 +193,7 @@ func (s *Specs) LoadSpecFile(path string, pkgPath string) error {
 		kw = strings.TrimSuffix(kw, ":")
 		switch kw {
 		case "package":
-			pkgPath = rest
+			pkgPath = strings.TrimSpace(rest)
 		case "func", "extern", "iface":
 			key := rest
 			if kw == "func" && pkgPath != "" {
